@@ -14,7 +14,7 @@ Driver ops of C17 (entity manifests):
   trie  ::= (trie anc|noanc (children ("k" trie)*) rtrie)
   (mspec <schema> (rt …) <rtrie> <req> <entities>)          → (spec ok) | (spec FAILED …)
         the model's slice checked against the specification used by Thm/C17.lean (`subStoreB`, `coverRootsB`: sound
-        checkers for `SubStore` / `CoverRoots`, Lemmas/ManifestCheck.lean) — samples the unproved `SlicerMeetsSpec`
+        checkers for `SubStore` / `CoverRoots`, Lemmas/ManifestCheck.lean) — samples `slicer_meets_spec` (now proved, Thm/C17.lean) on real inputs
 Canonical printing sorts roots and children by their printed form.
 -/
 namespace CedarVerif.Ops.ManifestOps
